@@ -36,6 +36,7 @@ type child struct {
 	crashes []string // stderr of each crash
 	leaked  int      // transport goroutines known to have been left behind in this incarnation
 	leaks   int      // number of confirmed leaks (after two the long waits are dropped)
+	env     []string // extra environment (GOMAXPROCS=1 for the one-processor gate scenarios)
 }
 
 type lockedBuf struct {
@@ -87,7 +88,7 @@ func (c *child) start() {
 	c.starts++
 	c.leaked = 0
 	cmd := exec.Command(c.bin)
-	cmd.Env = append(os.Environ(), "GORACE=halt_on_error=0 log_path="+filepath.Join(c.dir, "race"))
+	cmd.Env = append(append(os.Environ(), "GORACE=halt_on_error=0 log_path="+filepath.Join(c.dir, "race")), c.env...)
 	stdin, _ := cmd.StdinPipe()
 	stdout, _ := cmd.StdoutPipe()
 	c.stderr = &lockedBuf{}
@@ -174,6 +175,7 @@ type gateObs struct {
 	Overlaps    []string `json:"overlaps"`
 	AfterReturn []string `json:"after_return"`
 	AfterFinal  []string `json:"after_final"`
+	AfterHold   []string `json:"after_hold"`
 	Held        bool     `json:"held"`
 	Met         bool     `json:"met"`
 }
@@ -237,10 +239,11 @@ type Scenario struct {
 	Sizes      []int   `json:"sizes"`
 	DelaysNs   []int64 `json:"delays_ns"`
 	EndDelayNs int64   `json:"end_delay_ns"`
-	CutAt      int     `json:"cut_at"`   // >= 0: the client closes the connection after this many response bytes
-	ErrMode    bool    `json:"err_mode"` // invalid document: the stream carries one errors-only payload
-	Gated      bool    `json:"gated"`    // delays of -1 are released by the driver once the previous payload arrived
-	Hold       string  `json:"hold"`     // Mechanism A: which call the gate writer holds open ("" = plain endpoint)
+	CutAt      int     `json:"cut_at"`        // >= 0: the client closes the connection after this many response bytes
+	ErrMode    bool    `json:"err_mode"`      // invalid document: the stream carries one errors-only payload
+	Gated      bool    `json:"gated"`         // delays of -1 are released by the driver once the previous payload arrived
+	Hold       string  `json:"hold"`          // Mechanism A: which call(s) the gate writer holds open ("" = plain endpoint)
+	OneP       bool    `json:"one_processor"` // run in a server child with GOMAXPROCS=1
 
 	Status    int      `json:"status"`
 	CT        string   `json:"content_type"`
